@@ -110,6 +110,9 @@ fn one_case(run: &Run, fx: &Fx, n_in: usize, n_out: usize, extra: &(&'static str
     match got {
         Err(_) => run.outcome("panic(reported under C09)"),
         Ok(Ok(())) if !expect_ok => run.violation("C05", format!("underpaying-accepted/{}/cov={}", mclass, extra.0), format!("multiplier {} {}: fee {} < minimum {} but accepted", fx.mult, shape, tx.fee.0, min), replay),
+        // (a rejection that is not about the fee - e.g. a covenant whose weight does not fit 128 bits makes the transaction
+        // ill-formed - says nothing about the minimum)
+        Ok(Err(e)) if expect_ok && !matches!(e, melstf::StateError::InsufficientFees(_)) => run.outcome(&format!("paying-rejected-for-another-reason:{}", e.to_string().split(':').next().unwrap_or("").chars().take(40).collect::<String>())),
         Ok(Err(e)) if expect_ok => run.violation("C05", format!("paying-rejected/{}/cov={}/delta={}", mclass, extra.0, delta.signum()), format!("multiplier {} {}: fee {} >= minimum {} but rejected: {}", fx.mult, shape, tx.fee.0, min, e), replay),
         Ok(Err(_)) => run.outcome("rejected-below-threshold"),
         Ok(Ok(())) => {
@@ -268,6 +271,34 @@ pub fn run(run: &Run) {
                 loop_shape_cases(run, fx);
             }
         }
+    }
+    // where weight x multiplier leaves 128 bits the minimum fee saturates at 2^112 - 1: covenants of weight about 2^64, 2^96
+    // and beyond 2^128 (4, 6 and 9 nested loops of 65535) and bulky transactions (70 kB / 140 kB of data), at multipliers up to 2^127
+    {
+        let nest = |k: usize| {
+            let mut ops: Vec<OpCode> = (0..k).map(|i| OpCode::Loop(65535, (k - i) as u16)).collect();
+            ops.push(OpCode::Noop);
+            Covenant::from_ops(&ops).to_bytes()
+        };
+        let heavy: Vec<(&'static str, Option<Bytes>)> = vec![("nested-loops-x4(w~2^64)", Some(nest(4))), ("nested-loops-x6(w~2^96)", Some(nest(6))), ("nested-loops-x9(w>2^128)", Some(nest(9))), ("none", None)];
+        let big_mults: Vec<u128> = vec![1 << 32, 1 << 48, 1 << 64, 1 << 100, 1 << 127];
+        let big_fxs: Vec<Option<Fx>> = big_mults.iter().map(|m| fixture(*m)).collect();
+        let mut sat_cases = vec![];
+        for mi in 0..big_mults.len() {
+            for ci in 0..heavy.len() {
+                for dl in if heavy[ci].1.is_none() { vec![70_000usize, 140_000] } else { vec![0usize] } {
+                    for d in [-1i64, 0, 1] {
+                        sat_cases.push((mi, ci, dl, d));
+                    }
+                }
+            }
+        }
+        run.states_add(sat_cases.len() as u64);
+        sat_cases.par_iter().for_each(|(mi, ci, dl, d)| match &big_fxs[*mi] {
+            Some(fx) => one_case(run, fx, 1, 1, &heavy[*ci], *dl, *d),
+            None => run.outcome("saturating-minimum:fixture-unavailable"),
+        });
+        run.set("saturating_minimum_grid", json!({"multipliers": big_mults.iter().map(|m| m.to_string()).collect::<Vec<_>>(), "covenants": heavy.iter().map(|c| c.0).collect::<Vec<_>>(), "data_len_without_covenant": [70000, 140000], "fee_minus_min": [-1, 0, 1]}));
     }
     run.set("loop_shape_covenants", json!(loop_shape_covenants().len()));
     run.set("grid", json!({"multipliers": mults.iter().map(|m| m.to_string()).collect::<Vec<_>>(), "inputs": [1, 2, 3], "outputs": [0, 1, 2, 3, 255], "extra_covenants": covs.iter().map(|c| c.0).collect::<Vec<_>>(), "data_len": [0, 1, 100], "fee_minus_min": deltas, "cases": cases.len()}));
